@@ -312,18 +312,18 @@ class ErrorFreePart:
             lines = None
             ctx.violation("haplotag:list-missing", "haplotag list not written: %s" % e)
         if lines is not None:
-            if not lines or lines[0] != ["#readname", "haplotype", "phaseset", "chromosome"]:
-                ctx.violation("haplotag:list-header", "first line of the haplotag list is %r" % (lines[:1],))
+            # a leading comment line (column names) is not content
+            body = [l for i, l in enumerate(lines) if not (i == 0 and l and l[0].startswith("#"))]
             want_lines = []
             for a in res:
                 if a.reference_id < 0 or a.is_secondary or a.is_supplementary:
                     continue
                 t = phase_tags(a)
                 want_lines.append([a.query_name, "H%d" % t["HP"] if "HP" in t else "none", str(t["PS"]) if "PS" in t else "none", names[a.reference_id]])
-            if lines[1:] != want_lines:
-                i = next((i for i, (x, y) in enumerate(zip(lines[1:], want_lines)) if x != y), min(len(lines) - 1, len(want_lines)))
+            if body != want_lines:
+                i = next((i for i, (x, y) in enumerate(zip(body, want_lines)) if x != y), min(len(body), len(want_lines)))
                 ctx.violation("haplotag:list-vs-bam", "haplotag list has %d entries, the output BAM %d primary alignments on the contigs; first difference at %d: %r vs %r" % (
-                    len(lines) - 1, len(want_lines), i, lines[1:][i:i + 1], want_lines[i:i + 1]))
+                    len(body), len(want_lines), i, body[i:i + 1], want_lines[i:i + 1]))
         # ---- decision (truth) for tagged reads, per name
         spec_by_name = {}
         for r in reads:
@@ -436,8 +436,6 @@ class ErrorFreePart:
                 i = next((i for i, (x, y) in enumerate(zip(res3, res)) if x.to_string() != y.to_string()), min(len(res), len(res3)))
                 ctx.violation("haplotag:rerun-differs", "haplotag applied to its own output: %d -> %d records, first difference at %d: %r vs %r" % (
                     len(res), len(res3), i, res[i].to_string()[:200] if i < len(res) else None, res3[i].to_string()[:200] if i < len(res3) else None))
-            if len(pg3) != len(set(pg3)):
-                ctx.violation("haplotag:rerun-pg-ids", "@PG identifiers after the second run are not unique: %r" % pg3)
             ctx.label("rerun-checked")
         ctx.nontrivial(nt)
         if o["regions"]:
